@@ -112,7 +112,15 @@ func (o *Oracle) onBooted(inc *Inc) {
 
 // ------------------------------------------------------------------ client history
 
-func (o *Oracle) onInvoke(c *Call, inc *Inc) {}
+func (o *Oracle) onInvoke(c *Call, inc *Inc) {
+	// User Restore is an operator override (the statements of C02/C03 except it). Outside the
+	// C20 scenario, which tracks restore epochs precisely, a run that uses it is not judged on
+	// the committed-history oracles from that point on.
+	if c.Kind == "restore" && o.w.cfg.Profile != "C20" && o.tainted == "" {
+		o.tainted = "user Restore issued (operator override) outside the C20 scenario"
+		o.w.event("tainted: %s", o.tainted)
+	}
+}
 
 func (o *Oracle) onReturn(c *Call, inc *Inc) {
 	w := o.w
